@@ -81,6 +81,8 @@ func runC01(p *Program, r *Report) {
 	c07get(p, r, "C01.pool.get")
 	c14server(p, r, "C01.negotiation.server")
 	c14client(p, r, "C01.negotiation.client")
+	cFramePayload(p, r, "C01.payload")
+	c03loop(p, r, "C01.recv.loop")
 	sub := newReport(r.Prop, r.Tier)
 	c02rsv(p, sub, "C01.rsv")
 	for _, o := range sub.Obls {
@@ -424,6 +426,7 @@ func c01tail(p *Program, r *Report, rule string) {
 // ---- C08 --------------------------------------------------------------------------------------------------------------------
 
 func runC08(p *Program, r *Report) {
+	cTooBigSites(p, r, "C08.sites")
 	if fn := p.Func("limitReader.Read"); fn != nil {
 		ns := candidates(intConstsCompared(fn), -1, 0, 1, 5)
 		p.runTable(r, tableSpec{
@@ -1064,6 +1067,7 @@ func runC19(p *Program, r *Report) {
 	cReasons(p, r, "C19.reasons")
 	c07ws(p, r, "C19.alias")
 	c07get(p, r, "C19.pool")
+	cPoolClients(p, r, "C19.clients")
 	if c, ok := p.member("StatusInvalidFramePayloadData").(*ssa.NamedConst); ok {
 		v, _ := constInt64(c.Value.Value)
 		r.Exists("C19.read", "close.go", "StatusInvalidFramePayloadData", "-", v == 1007, "StatusInvalidFramePayloadData = 1007", fmt.Sprint(v))
